@@ -186,6 +186,11 @@ def run_sched(case: Dict[str, Any]) -> Dict[str, Any]:
                         T = T.replace(tzinfo=None)
                     sched_label.append({"time": T, "args": [e["id"]]})
             b.register_task(t, task_name="t", schedule=sched_label)
+            for rt in case.get("retime", ()):
+                # the application edits an entry of the task's schedule label IN PLACE while the scheduler runs
+                def _retime(rt: Dict[str, Any] = rt) -> None:
+                    sched_label[rt["idx"]]["cron"] = rt["cron"]
+                loop.call_later(rt["at_s"], _retime)
         else:
             b.register_task(t, task_name="t")
         for si, s in enumerate(case["sources"]):
